@@ -2,7 +2,10 @@
 
 package url
 
-import "github.com/nlnwa/whatwg-url/internal/vnd"
+import (
+	"github.com/nlnwa/whatwg-url/internal/vnd"
+	model "github.com/nlnwa/whatwg-url/internal/whatwgmodel"
+)
 
 // verifCheckRoundTrip: parsing the serialization (no base) succeeds and yields the
 // identical serialization and components.
@@ -70,26 +73,39 @@ func VerifC03RoundTripRel() {
 	verifCheckRoundTrip(u)
 }
 
-// firstSegmentIsPipeDrive: the first path segment is an ASCII letter followed by '|'.
-func firstSegmentIsPipeDrive(u *Url) bool {
-	if u.path.isOpaque() || len(u.path.p) == 0 {
+// modelRoundTrips: do the standard's own algorithms round-trip on this state? (The property
+// exempts exactly the states where they do not: e.g. the protocol setter switching to file over a
+// first path segment `C|`, or over a host `localhost`.)
+func modelRoundTrips(mu *model.URL) bool {
+	mv, ok := model.Parse(mu.Href(false), nil)
+	if !ok {
 		return false
 	}
-	s := u.path.p[0]
-	return len(s) == 2 && ((s[0] >= 'a' && s[0] <= 'z') || (s[0] >= 'A' && s[0] <= 'Z')) && s[1] == '|'
+	return verifCheckSnap(snapModel(mu, true), snapModel(mv, true)) == ""
 }
 
-// roundTripOps: round trip after setter histories. The only exempt state is the
-// standard's own: scheme file, first segment `X|`, reached through a protocol-setter
-// call that switched the scheme to file.
+// roundTripOps: round trip after setter histories; the same history is applied to the reference
+// model, and the only exempt states are those in which the standard's own algorithms do not round-trip.
 func roundTripOps(depth, k, nstarts int) {
-	si := vnd.Pick(nstarts)
-	u, err := Parse(startURLs[si])
-	if err != nil {
+	start := startURLs[vnd.Pick(nstarts)]
+	u, err := Parse(start)
+	mu, ok := model.Parse(start, nil)
+	if err != nil || !ok {
 		return
 	}
-	sw := history(u, depth, k)
-	if sw && u.scheme == "file" && firstSegmentIsPipeDrive(u) {
+	for i := 0; i < depth; i++ {
+		op := vnd.Pick(9)
+		var val string
+		if i == depth-1 {
+			val = vnd.Str(vnd.Len(k))
+		} else {
+			vals := setterValues[op]
+			val = vals[vnd.Pick(len(vals))]
+		}
+		applySetter(u, opSetterNames[op], val)
+		applyModelSetter(mu, op, val)
+	}
+	if !modelRoundTrips(mu) {
 		vnd.Cover("standard-exception-state", true)
 		return
 	}
@@ -100,10 +116,10 @@ func roundTripOps(depth, k, nstarts int) {
 func VerifC03RoundTripOps1() { roundTripOps(1, vnd.Param("C03.KOps1", 2, 3), len(startURLs)) }
 
 // VerifC03RoundTripOps2: two setter calls, the first from the value lists, the second symbolic.
-func VerifC03RoundTripOps2() { roundTripOps(2, vnd.Param("C03.KOps2", 1, 2), vnd.Param("C03.Starts2", 6, 16)) }
+func VerifC03RoundTripOps2() { roundTripOps(2, vnd.Param("C03.KOps2", 1, 2), vnd.Param("C03.Starts2", 7, 17)) }
 
 // VerifC03RoundTripOps3: three setter calls (thorough tier).
-func VerifC03RoundTripOps3() { roundTripOps(3, vnd.Param("C03.KOps3", 0, 1), vnd.Param("C03.Starts3", 6, 16)) }
+func VerifC03RoundTripOps3() { roundTripOps(3, vnd.Param("C03.KOps3", 0, 1), vnd.Param("C03.Starts3", 7, 17)) }
 
 func init() {
 	verifHarnesses["VerifC03RoundTripAbs"] = VerifC03RoundTripAbs
